@@ -203,6 +203,18 @@ def check_interner_ops(chk, prog, cfg, rule="R12.1"):
         rt = b.return_term()
         ok = is_adt_agg(rt, INT) and is_call(agg_field(rt, "map"), BT + "::new", nargs=0) and is_call(agg_field(rt, "vec"), VEC + "::new", nargs=0)
         chk.expect(ok, rule, "Interner::new", b.where(), path_str(rt), cfg)
+    cands = [p_ for p_ in prog.fns if mir.strip_generics(p_) == "<scale_info::interner::Interner as core::default::Default>::default"]
+    if len(cands) == 1:
+        bd = prog.body(cands[0])
+        rt = bd.return_term()
+        chk.expect(is_call(rt, "scale_info::interner::Interner::new", nargs=0), rule, "Interner::default=new", bd.where(), path_str(rt), cfg)
+    else:
+        chk.anchor_missing("Default for Interner")
+    imps = prog.impl_for("core::default::Default", lambda t: t["k"] == "adt" and t["d"] == PRB)
+    if imps:
+        e = (imps[0]["expn"] or [{}])[0]
+        chk.expect(imps[0]["automatically_derived"] and e.get("crate") == "core", rule, "PortableRegistryBuilder::default:derived", imps[0]["loc"],
+                   "Default for the builder is the built-in derive (field-wise default): %s" % imps[0]["automatically_derived"], cfg)
     b = anchor(chk, prog, "interner::Symbol::into_untracked")
     if b is not None:
         rt = b.return_term()
